@@ -170,7 +170,7 @@ SUBCHECKS = {
         rule="case = stream multiset x utility set {none, levels beyond the range}; non-trivial = >=2 zeros of the residual or a threshold shape; "
              "shape classes (multiple runs, threshold top/bottom, whole-range) are counted in stats",
         cases=service_cases, run=service_run,
-        bound=lambda t: "multisets <=3 (K=4, dt=0) + multisets <=2 (dt=d/2) with utility levels beyond the range" if t == "quick"
+        bound=lambda t: "multisets <=3 (K=4, dt=0) + multisets <=2 (dt=d/2) with utility levels beyond the range + 5-decimal-temperature and zero-crossing lattices" if t == "quick"
         else "multisets <=3 (K=4, dt {0,d/2}) x {no utilities, levels beyond the range}",
     ),
 }
